@@ -153,3 +153,16 @@ Definition dest (held : bytes) (room : option N) : wstate := {| w_got := held; w
    writes on the transport). *)
 Definition io_agrees (r : mres * wstate) (res : mres) (got : bytes) : bool :=
   beq_mres (fst r) res && beq_bytes (w_got (snd r)) got.
+
+(* ------------------------------------------------ histories of Marshal calls *)
+(* One call = (layout, value, destination: a fresh writer accepting everything / [room] octets).  A history is a list
+   of calls made one after the other by the same process.  The Go code keeps nothing between calls (the scratch
+   buffers are locals of each call), so the model of a history is the list of the models of its calls: that the
+   implementation behaves like this — that a call that FAILED (a refusal by any field encoder at any field position,
+   a destination that gave up after k octets) leaves nothing behind for the next one — is what the generated history
+   cases compare (harness/pdu_corpus.go: sandwich / historyCase). *)
+Definition call : Type := layout * list fval * option N.
+Definition run_call (c : call) : mres * bytes :=
+  let '(lay, vs, room) := c in
+  let r := marshal_io lay vs (dest [] room) in (fst r, w_got (snd r)).
+Definition run_calls (cs : list call) : list (mres * bytes) := map run_call cs.
